@@ -6,6 +6,7 @@ import (
 	"errors"
 	"io"
 	"net"
+	"strings"
 	"sync"
 	"time"
 
@@ -407,7 +408,7 @@ func (c *Client) SendRaw(packet string) error {
 
 	// Store stanza as non-acked as part of stream management
 	// See https://xmpp.org/extensions/xep-0198.html#scenarios
-	if session := c.Session; c.config.StreamManagementEnable && session != nil {
+	if session := c.Session; c.config.StreamManagementEnable && session != nil && !isSMAck(packet) {
 		toStore := stanza.UnAckedStz{Stz: packet}
 		session.SMState.UnAckQueue.Push(&toStore)
 	}
@@ -418,6 +419,22 @@ func (c *Client) sendWithWriter(writer io.Writer, packet []byte) error {
 	var err error
 	_, err = writer.Write(packet)
 	return err
+}
+
+// isSMAck tells whether a raw packet is a stream management acknowledgement request (<r/>) or
+// answer (<a/>). These are not stanzas: they are neither held for retransmission nor counted.
+func isSMAck(packet string) bool {
+	d := xml.NewDecoder(strings.NewReader(packet))
+	for {
+		tok, err := d.Token()
+		if err != nil {
+			return false
+		}
+		if start, ok := tok.(xml.StartElement); ok {
+			return start.Name.Space == stanza.NSStreamManagement &&
+				(start.Name.Local == "r" || start.Name.Local == "a")
+		}
+	}
 }
 
 // ============================================================================
